@@ -404,6 +404,9 @@ func genVP8Frame(rng *rand.Rand, maxMBW, maxMBH int, force string) genVP8 {
 	if rng.Intn(4) == 0 {
 		level = 0
 	}
+	if force == "lfdelta-all" || force == "lfdelta-keep" {
+		level = 8 + rng.Intn(20)
+	}
 	if useSeg {
 		updMap, updData = rng.Intn(4) != 0, rng.Intn(4) != 0
 		hd.put(b2i(updMap), 128)
@@ -448,16 +451,20 @@ func genVP8Frame(rng *rand.Rand, maxMBW, maxMBH int, force string) genVP8 {
 	hd.put(b2i(simple), 128)
 	hd.lit(level, 6)
 	hd.lit(sharp, 3)
-	useDelta := rng.Intn(2) == 0
+	useDelta := rng.Intn(2) == 0 || force == "lfdelta-all" || force == "lfdelta-keep"
 	hd.put(b2i(useDelta), 128)
 	deltaDesc := ""
 	if useDelta {
-		upd := rng.Intn(3) != 0
+		upd := (rng.Intn(3) != 0 || force == "lfdelta-all") && force != "lfdelta-keep"
 		hd.put(b2i(upd), 128)
 		if upd {
 			for i := 0; i < 8; i++ {
-				pr := rng.Intn(3) != 0
-				hd.optSlit(rng.Intn(64)-20, 6, pr)
+				pr := rng.Intn(3) != 0 || force == "lfdelta-all"
+				v := rng.Intn(64) - 20
+				if force == "lfdelta-all" {
+					v = 12 + rng.Intn(30) // every delta present and clearly non-zero
+				}
+				hd.optSlit(v, 6, pr)
 			}
 			deltaDesc = " lfdelta-upd"
 		} else {
